@@ -8,6 +8,8 @@ import (
 	"sort"
 	"strings"
 
+	"github.com/hattya/go.sh/ast"
+	"github.com/hattya/go.sh/interp"
 	"github.com/hattya/go.sh/pattern"
 )
 
@@ -30,7 +32,10 @@ type globPat struct {
 	// the other reading of a trailing backslash (equal to exp / expstr otherwise)
 	Exp2    [][][]string `json:"exp2"`
 	ExpStr2 [][]string   `json:"expstr2"`
-	Obs     *globPatObs  `json:"obs,omitempty"`
+	// expected fields of the pattern written as a word: the matches, or the word itself (quotes removed) when nothing matches
+	ExpW  [][]string  `json:"expw"`
+	ExpW2 [][]string  `json:"expw2"`
+	Obs   *globPatObs `json:"obs,omitempty"`
 }
 
 type globPatObs struct {
@@ -43,6 +48,10 @@ type globPatObs struct {
 	NoDup   bool         `json:"nodup"`
 	Lstat   bool         `json:"lstat"`   // every returned path exists
 	SlashOK bool         `json:"slashok"` // every result ends in a slash iff the pattern does
+	XW      [][]string   `json:"xw"`      // ExecEnv.Expand of the same pattern written as a word (relative, single slashes): the fields
+	XDots   int          `json:"xdots"`   // ... fields with a "." or ".." component
+	XErr    string       `json:"xerr"`
+	XSorted bool         `json:"xsorted"`
 	Panic   string       `json:"panic"`
 }
 
@@ -126,6 +135,49 @@ func runGlobPat(p globPat) (o *globPatObs) {
 		}
 		o.Res = append(o.Res, path)
 		o.Strs = append(o.Strs, str)
+	}
+	// the same pattern as a word: escaped characters become backslash quotations
+	o.XW = [][]string{}
+	o.XSorted = true
+	if !p.Abs && p.Rep != 2 {
+		var w ast.Word
+		for i, c := range p.Comps {
+			if i > 0 {
+				w = append(w, &ast.Lit{Value: "/"})
+			}
+			for j := 0; j < len(c); j++ {
+				if c[j] == "\\" && j+1 < len(c) {
+					w = append(w, &ast.Quote{Tok: "\\", Value: ast.Word{&ast.Lit{Value: symbol(c[j+1])}}})
+					j++
+				} else {
+					w = append(w, &ast.Lit{Value: symbol(c[j])})
+				}
+			}
+		}
+		if p.Slash {
+			w = append(w, &ast.Lit{Value: "/"})
+		}
+		env := interp.NewExecEnv("sh")
+		fs, err := env.Expand(w, 0)
+		if err != nil {
+			o.XErr = err.Error()
+		}
+		for i, f := range fs {
+			if i > 0 && fs[i-1] >= f {
+				o.XSorted = false
+			}
+			dot := false
+			for _, n := range strings.Split(strings.TrimRight(f, "/"), "/") {
+				if n == "." || n == ".." {
+					dot = true
+				}
+			}
+			if dot {
+				o.XDots++
+				continue
+			}
+			o.XW = append(o.XW, toSymbols(f))
+		}
 	}
 	return
 }
